@@ -8,7 +8,7 @@ mutated function. A mutant is `killed` when some non-canary obligation is refute
 otherwise. Survivors are candidates for contract weaknesses (or equivalent mutants)
 and are triaged by hand in mutation/TRIAGE.md.
 
-usage: mutation_sweep.py [--files a.c,b.c] [--max N] [--seed S] [--jobs J] [--out DIR]
+usage: mutation_sweep.py [--files a.c,b.c] [--max N] [--seed S] [--jobs J] [--out DIR] [--rerun results.jsonl]
 """
 import concurrent.futures as cf
 import json
@@ -35,7 +35,7 @@ COVER = {
     "reproc_wait": ["reproc_wait", "reproc_stop"],
     "reproc_terminate": ["reproc_terminate", "reproc_stop"], "reproc_kill": ["reproc_kill", "reproc_stop"],
     "reproc_stop": ["reproc_stop", "reproc_destroy"], "reproc_destroy": ["reproc_destroy", "reproc_new"],
-    "signal_mask": ["process_fork_parent", "process_fork_child"],
+    "signal_mask": ["process_fork_parent", "process_fork_child", "process_fork_parent_st"],
     "process_fork": ["process_fork_parent", "process_fork_child"],
     "get_max_fd": ["get_max_fd", "process_fork_child"], "fd_in_set": ["fd_in_set"],
     "path_is_relative": ["path_is_relative", "process_start_child"], "path_prepend_cwd": ["path_prepend_cwd"],
@@ -57,6 +57,8 @@ COVER = {
 }
 FILES = ["reproc.c", "process.posix.c", "pipe.posix.c", "handle.posix.c", "redirect.c", "redirect.posix.c",
          "options.c", "strv.c", "drain.c", "run.c", "clock.posix.c"]
+
+SET = 1  # operator set: 1 = relational/logical/constant/call deletion, 2 = negated conditions, constant returns, deleted assignments, arithmetic, dropped negation, sentinel constants
 
 REL = [("<=", "<"), (">=", ">"), ("==", "!="), ("!=", "=="), (" < ", " <= "), (" > ", " >= ")]
 LOG = [("&&", "||"), ("||", "&&")]
@@ -94,7 +96,7 @@ def candidates(file):
         if s.startswith("ASSERT(") or s.startswith("ASSERT_UNUSED("):
             continue  # compiled out (-DNDEBUG)
         code = l.split("//")[0]
-        for table, kind in ((REL, "rel"), (LOG, "log"), (CONST, "const")):
+        for table, kind in (() if SET == 2 else ((REL, "rel"), (LOG, "log"), (CONST, "const"))):
             for a, b in table:
                 k = code.find(a)
                 if k < 0:
@@ -105,6 +107,29 @@ def candidates(file):
                     continue
                 new = code[:k] + b + code[k + len(a):]
                 out.append({"file": file, "line": i + 1, "fn": fn, "kind": kind, "old": l, "new": new})
+        if SET == 2:
+            ind = re.match(r"^\s*", code).group(0)
+            m2 = re.match(r"^(\s+(?:\} else )?if \()(.*)(\) \{\s*)$", code)
+            if m2:
+                out.append({"file": file, "line": i + 1, "fn": fn, "kind": "negate-if", "old": l, "new": m2.group(1) + "!(" + m2.group(2) + ")" + m2.group(3)})
+            m2 = re.match(r"^(\s+return )(.+);\s*$", code)
+            if m2 and m2.group(2).strip() not in ("0", "-1", "NULL", "false", "true"):
+                for c in ("0", "-1"):
+                    out.append({"file": file, "line": i + 1, "fn": fn, "kind": "return-const", "old": l, "new": m2.group(1) + c + ";"})
+            if re.match(r"^\s+[\w\.\->\[\]\*]+\s*(=|\+=|\|=)\s*[^=(]+;\s*$", code) and not re.match(r"^\s+(int|size_t|char|bool|pid_t|struct|const|static|uint8_t|int64_t|pipe_type|handle_type)\b", code):
+                out.append({"file": file, "line": i + 1, "fn": fn, "kind": "delete-assign", "old": l, "new": ind + ";"})
+            for a, b in ((" + ", " - "), (" - ", " + "), (" | ", " & "), (" & ~", " & "), ("++", "--")):
+                k = code.find(a)
+                if k >= 0:
+                    out.append({"file": file, "line": i + 1, "fn": fn, "kind": "arith", "old": l, "new": code[:k] + b + code[k + len(a):]})
+            k = code.find("!")
+            if k >= 0 and code[k + 1:k + 2] not in ("=",) and "ASSERT" not in code:
+                out.append({"file": file, "line": i + 1, "fn": fn, "kind": "drop-not", "old": l, "new": code[:k] + code[k + 1:]})
+            for a, b in (("PIPE_INVALID", "0"), ("HANDLE_INVALID", "0"), ("REPROC_INFINITE", "0"), ("NULL", "(void *) 1")):
+                k = code.find(a)
+                if k >= 0 and "ASSERT" not in code:
+                    out.append({"file": file, "line": i + 1, "fn": fn, "kind": "const2", "old": l, "new": code[:k] + b + code[k + len(a):]})
+            continue
         if re.match(r"^\s+(\w[\w\.\->\[\]\*]*\s*=\s*)?\w+\(.*\);\s*$", code) and "return" not in code and not re.match(r"^\s+(int|size_t|char|bool|pid_t|struct|const|static)\b", code):
             ind = re.match(r"^\s*", code).group(0)
             out.append({"file": file, "line": i + 1, "fn": fn, "kind": "delete-call", "old": l, "new": ind + ";"})
@@ -117,8 +142,11 @@ def run_one(m, idx, timeout):
         shutil.copytree("/repo/reproc", os.path.join(top, "reproc"))
         p = os.path.join(top, "reproc", "src", m["file"])
         lines = open(p).read().split("\n")
-        assert lines[m["line"] - 1] == m["old"]
-        lines[m["line"] - 1] = m["new"]
+        # the line may have moved (later commits in /repo): take the closest identical line
+        idxs = [i for i, l in enumerate(lines) if l == m["old"]]
+        assert idxs, "line not found: " + m["old"]
+        k = min(idxs, key=lambda i: abs(i - (m["line"] - 1)))
+        lines[k] = m["new"]
         open(p, "w").write("\n".join(lines))
         env = dict(os.environ, VERIF_REPO=top, VERIF_BUILD_SUFFIX=".mut%d" % idx, VERIF_TIMEOUT=str(timeout), VERIF_JOBS="2")
         refuted, noverdict = [], []
@@ -146,6 +174,8 @@ def main():
     a = sys.argv[1:]
     def opt(name, default):
         return a[a.index(name) + 1] if name in a else default
+    global SET
+    SET = int(opt("--set", "1"))
     files = opt("--files", ",".join(FILES)).split(",")
     mx = int(opt("--max", "200"))
     seed = int(opt("--seed", "1"))
@@ -154,10 +184,18 @@ def main():
     timeout = int(opt("--timeout", "400"))
     os.makedirs(out, exist_ok=True)
     cands = []
-    for f in files:
-        cands += candidates(f)
-    random.Random(seed).shuffle(cands)
-    cands = cands[:mx]
+    rerun = opt("--rerun", None)
+    if rerun:
+        # only what was not killed in an earlier run (after strengthening the checks)
+        for l in open(rerun):
+            r = json.loads(l)
+            if r["verdict"] != "killed":
+                cands.append({k: r[k] for k in ("file", "line", "fn", "kind", "old", "new")})
+    else:
+        for f in files:
+            cands += candidates(f)
+        random.Random(seed).shuffle(cands)
+        cands = cands[:mx]
     print("%d mutants selected" % len(cands), flush=True)
     res = []
     with cf.ThreadPoolExecutor(max_workers=jobs) as ex:
@@ -172,7 +210,7 @@ def main():
             print("%-10s %s:%d %s [%s] %s -> %s   %s" % (r["verdict"], r["file"], r["line"], r["fn"], r["kind"],
                   r["old"].strip()[:60], r["new"].strip()[:60], ",".join(r["refuted"][:2])), flush=True)
     res.sort(key=lambda r: (r["file"], r["line"], r["kind"]))
-    tag = "seed%d" % seed
+    tag = "set%d-seed%d" % (SET, seed) + ("-rerun" if rerun else "")
     with open(os.path.join(out, "results-%s.jsonl" % tag), "w") as f:
         for r in res:
             f.write(json.dumps(r) + "\n")
